@@ -245,6 +245,14 @@ def run(ctx: Ctx) -> None:
     ctx.log(f"TLC: {len(cfgs)} (T,N) configurations x all drop positions x all single panics: "
             f"{ctx.cov['states']} distinct states, all properties hold")
 
+    # ------------------------------------------------------------------ 1b. Order for EVERY T, N, panicking set and
+    # drop position: an inductive invariant (where each worker's single outstanding item is) checked by the TLA+ proof
+    # system; runs in the background while the plans below are imposed on the real code
+    import concurrent.futures as cf
+    from .. import tlaps
+    prover = cf.ThreadPoolExecutor(max_workers=1)
+    proof = prover.submit(tlaps.prove, ctx, "ParallelMap_OrderProofs", ["OrderForAllInputs"])
+
     # ------------------------------------------------------------------ 2. spec -> code: impose edge covers
     rng = random.Random(ctx.seed + 15)
     traces = {}
@@ -300,6 +308,8 @@ def run(ctx: Ctx) -> None:
             if n_plans % 60 == 1:
                 ctx.sample({"kind": "completion order imposed on the real parallel_map", "T": T, "N": N,
                             "panics": panics, "drop_after": drop, "steps": steps, "log": [" ".join(l) for l in log]})
+    proof.result()
+    prover.shutdown()
     ctx.cov["plans_imposed_on_real_parallel_map"] = n_plans
     if n_skipped:
         ctx.cov["plans_skipped_after_six_hangs"] = n_skipped
